@@ -21,7 +21,10 @@ pub fn pair_script(id_hash: u64, count: u64, seed: u64, m: usize) -> Vec<(i128, 
     seed_256[0..8].copy_from_slice(&id_hash.to_ne_bytes());
     seed_256[8..16].copy_from_slice(&count.to_ne_bytes());
     seed_256[16..24].copy_from_slice(&seed.to_ne_bytes());
-    let mut rng = Xoshiro256PlusPlus::from_seed(seed_256);
+    // the three words are mixed before seeding (fix D11)
+    let mut mixer = WyHash::with_seed(0x9e3779b97f4a7c15);
+    mixer.write(&seed_256[0..24]);
+    let mut rng = Xoshiro256PlusPlus::seed_from_u64(mixer.finish());
     let mut g = vec![0f64; m.saturating_sub(1)];
     for i in 1..m {
         g[i - 1] = m as f64 / (m - i) as f64;
@@ -116,7 +119,7 @@ pub fn cases(args: &[String]) {
             }
         }
         out.push(json!({"wire": w.iter().map(|x| x.to_string()).collect::<Vec<_>>(), "index": i,
-            "meta": {"kind": "ordminhash", "m": m, "l": l, "len": data.len(), "nprev": nprev,
+            "meta": {"kind": "ordminhash", "m": m, "l": l, "len": data.len(), "nprev": nprev, "data": data,
                      "outcome": if r.is_ok() {"ok"} else {"panic"}, "sig_ok": sig_ok}}));
     }
     println!("{}", json!({ "cases": out }));
@@ -184,6 +187,57 @@ pub fn props(args: &[String]) {
             }
         }
     }
+    // any l: the (element, occurrence) pairs selected per position, with their values, do not depend on
+    // the order of the sequence (read through the guarded accessor)
+    let labels = |seq: &[u64]| -> Vec<(u64, u64)> {
+        let mut cnt: std::collections::HashMap<u64, u64> = std::collections::HashMap::new();
+        seq.iter().map(|e| { let c = cnt.entry(*e).or_insert(0); let r = (*e, *c); *c += 1; r }).collect()
+    };
+    for _ in 0..n {
+        let m = if rng.coin(0.5) { rng.range(1, 8) } else { rng.range(1, 32) } as usize;
+        let l = rng.range(1, 6) as usize;
+        let data = gen_seq(&mut rng, l);
+        let mut perm = data.clone();
+        for i in (1..perm.len()).rev() {
+            let j = rng.below(i as u64 + 1) as usize;
+            perm.swap(i, j);
+        }
+        tried += 1;
+        let r = catch_unwind(AssertUnwindSafe(|| {
+            let mut out = Vec::new();
+            for seq in [&data, &perm] {
+                let mut s = ProbOrdMinHash2::<FnvHasher>::new(m as u32, l);
+                let _ = s.hash_set(seq);
+                let (idx, vals) = s.verif_selected();
+                let lab = labels(seq);
+                // create_signature sorts the indices of a slot in place (sequence order), so indices and
+                // values are no longer aligned entry by entry: compare the two sets separately
+                let mut per_slot: Vec<(Vec<(u64, u64)>, Vec<u64>)> = Vec::new();
+                for k in 0..m {
+                    let mut labs: Vec<(u64, u64)> = (0..l).map(|j| {
+                        let i = idx[k * l + j] as usize;
+                        if i < lab.len() { lab[i] } else { (u64::MAX, u64::MAX) }
+                    }).collect();
+                    labs.sort();
+                    let mut vs: Vec<u64> = (0..l).map(|j| vals[k * l + j].to_bits()).collect();
+                    vs.sort();
+                    per_slot.push((labs, vs));
+                }
+                out.push(per_slot);
+            }
+            out
+        }));
+        match r {
+            Err(_) => add("ord-panic", format!("hash_set panicked (m={}, l={}, len={})", m, l, data.len()), json!({"m": m, "l": l, "a": data})),
+            Ok(out) => {
+                if out[0] != out[1] {
+                    let k = (0..m).find(|k| out[0][*k] != out[1][*k]).unwrap();
+                    add("ord-select-perm", format!("a permutation of the sequence changes the (element, occurrence) pairs selected at position {} (m={}, l={}, len={})", k, m, l, data.len()),
+                        json!({"m": m, "l": l, "a": data, "b": perm}));
+                }
+            }
+        }
+    }
     println!("{}", json!({"tried": tried, "found": found}));
 }
 
@@ -216,4 +270,111 @@ pub fn mc(args: &[String]) {
         }
     }
     println!("{}", json!({"found": found}));
+}
+
+/// debugging / replay aid: prints, per position, the selected (value bits, element, occurrence) of two sequences
+pub fn show(args: &[String]) {
+    let m = arg_u64(args, "--m", 8) as usize;
+    let l = arg_u64(args, "--l", 1) as usize;
+    let parse = |name: &str| -> Vec<u64> {
+        let i = args.iter().position(|a| a == name).unwrap();
+        args[i + 1].split(',').map(|x| x.trim().parse().unwrap()).collect()
+    };
+    let a = parse("--a");
+    let b = parse("--b");
+    for seq in [&a, &b] {
+        let mut cnt: std::collections::HashMap<u64, u64> = std::collections::HashMap::new();
+        let lab: Vec<(u64, u64)> = seq.iter().map(|e| { let c = cnt.entry(*e).or_insert(0); let r = (*e, *c); *c += 1; r }).collect();
+        let mut s = ProbOrdMinHash2::<FnvHasher>::new(m as u32, l);
+        let _ = s.hash_set(seq);
+        let (idx, vals) = s.verif_selected();
+        for k in 0..m {
+            let v: Vec<(f64, u64, u64, usize)> = (0..l).map(|j| { let i = idx[k * l + j] as usize; let (e, c) = if i < lab.len() { lab[i] } else { (u64::MAX, u64::MAX) }; (vals[k * l + j], e, c, i) }).collect();
+            println!("slot {} {:?}", k, v);
+        }
+        println!("--");
+    }
+}
+
+
+/// exact order-min-hash collision probability of two short sequences: share of the rankings of the union of
+/// their (element, occurrence) pairs under which the l lowest-ranked pairs of each, in sequence order, spell the same
+pub fn omh_exact(a: &[u64], b: &[u64], l: usize) -> f64 {
+    fn labels(seq: &[u64]) -> Vec<(u64, u64)> {
+        let mut cnt: std::collections::HashMap<u64, u64> = std::collections::HashMap::new();
+        seq.iter().map(|e| { let c = cnt.entry(*e).or_insert(0); let r = (*e, *c); *c += 1; r }).collect()
+    }
+    let la = labels(a);
+    let lb = labels(b);
+    let mut all: Vec<(u64, u64)> = la.iter().chain(lb.iter()).cloned().collect();
+    all.sort();
+    all.dedup();
+    let n = all.len();
+    assert!(n <= 9);
+    let pos = |x: &(u64, u64)| all.iter().position(|y| y == x).unwrap();
+    let ia: Vec<usize> = la.iter().map(pos).collect();
+    let ib: Vec<usize> = lb.iter().map(pos).collect();
+    // rank[i] = rank of pair i; enumerate all permutations (Heap's algorithm)
+    let mut rank: Vec<usize> = (0..n).collect();
+    let mut c = vec![0usize; n];
+    let mut hits = 0u64;
+    let mut total = 0u64;
+    let spell = |idx: &Vec<usize>, seq: &[u64], rank: &Vec<usize>| -> Vec<u64> {
+        let mut order: Vec<usize> = (0..idx.len()).collect();
+        order.sort_by_key(|p| rank[idx[*p]]);
+        let mut chosen: Vec<usize> = order[..l].to_vec();
+        chosen.sort();
+        chosen.iter().map(|p| seq[*p]).collect()
+    };
+    let mut visit = |rank: &Vec<usize>| {
+        total += 1;
+        if spell(&ia, a, rank) == spell(&ib, b, rank) { hits += 1; }
+    };
+    visit(&rank);
+    let mut i = 0;
+    while i < n {
+        if c[i] < i {
+            if i % 2 == 0 { rank.swap(0, i); } else { rank.swap(c[i], i); }
+            visit(&rank);
+            c[i] += 1;
+            i = 0;
+        } else {
+            c[i] = 0;
+            i += 1;
+        }
+    }
+    hits as f64 / total as f64
+}
+
+/// Monte-Carlo over fresh element labels for sequences WITH repeated elements, against the exact probability
+pub fn mc_rep(args: &[String]) {
+    let seed = arg_u64(args, "--seed", 1);
+    let trials = arg_u64(args, "--trials", 2000) as usize;
+    let mut rng = SplitMix64::new(seed ^ 0x3C10AA);
+    let mut rows: Vec<Value> = Vec::new();
+    let shapes: Vec<(&str, Vec<u64>, Vec<u64>, usize)> = vec![
+        ("a4b-vs-ac", vec![0, 0, 0, 0, 1], vec![0, 2], 1),
+        ("aab-vs-abb", vec![0, 0, 1], vec![0, 1, 1], 2),
+        ("aaab-vs-abab", vec![0, 0, 0, 1], vec![0, 1, 0, 1], 2),
+        ("distinct", vec![0, 1, 2, 3], vec![1, 2, 3, 4], 2),
+    ];
+    for (name, pa, pb, l) in shapes {
+        let p = omh_exact(&pa, &pb, l);
+        for m in [8usize, 64] {
+            let mut sum = 0.0f64;
+            for _ in 0..trials {
+                let ids: Vec<u64> = (0..5).map(|_| rng.next_u64() >> 4).collect();
+                let a: Vec<u64> = pa.iter().map(|i| ids[*i as usize]).collect();
+                let b: Vec<u64> = pb.iter().map(|i| ids[*i as usize]).collect();
+                let mut s = ProbOrdMinHash2::<FnvHasher>::new(m as u32, l);
+                let sa = s.hash_set(&a);
+                let sb = s.hash_set(&b);
+                sum += sa.iter().zip(sb.iter()).filter(|(x, y)| x == y).count() as f64 / m as f64;
+            }
+            let mean = sum / trials as f64;
+            let z = (mean - p) / (p * (1. - p) / (m as f64 * trials as f64)).sqrt().max(1e-12);
+            rows.push(json!({"family": name, "m": m, "l": l, "p": p, "mean": mean, "z": z, "trials": trials}));
+        }
+    }
+    println!("{}", json!({"rows": rows}));
 }
